@@ -212,9 +212,12 @@ func (env *Env) custom(i int, fs FeatSpec) xmpp.StreamFeature {
 		Necessary:  xmpp.SessionState(fs.Nec),
 		Prohibited: xmpp.SessionState(fs.Proh),
 		List: func(ctx context.Context, e xmlstream.TokenWriter, start xml.StartElement) (bool, error) {
+			rec.call(SVal{K: "list", More: fs.LReq, Err: fs.LErr})
 			if fs.LErr {
-				// something is already in the encoder's buffer when the error is reported
-				_ = e.EncodeToken(start)
+				if fs.LMessy {
+					// something is already in the encoder's buffer when the error is reported
+					_ = e.EncodeToken(start)
+				}
 				return fs.LReq, ErrScripted
 			}
 			if err := e.EncodeToken(start); err != nil {
@@ -235,6 +238,7 @@ func (env *Env) custom(i int, fs FeatSpec) xmpp.StreamFeature {
 			if err := d.Skip(); err != nil {
 				return req, nil, err
 			}
+			rec.call(SVal{K: "parse", More: req, Err: perr})
 			if perr {
 				return req, nil, ErrScripted
 			}
